@@ -840,7 +840,10 @@ impl gen::CELVisitorCompat<'_> for Parser {
     fn visit_Int(&mut self, ctx: &IntContext<'_>) -> Self::Return {
         let string = ctx.get_text();
         let token = ctx.tok.as_ref().expect("Has to have int!");
-        let val = match if let Some(string) = string.strip_prefix("0x") {
+        // The text includes the optional sign of the literal (`sign=MINUS? tok=NUM_INT`).
+        let val = match if let Some(string) = string.strip_prefix("-0x") {
+            i64::from_str_radix(&format!("-{string}"), 16)
+        } else if let Some(string) = string.strip_prefix("0x") {
             i64::from_str_radix(string, 16)
         } else {
             string.parse::<i64>()
